@@ -14,7 +14,7 @@
     L2Norm.prox                       → `l2Prox`              (`norm_v == 0` test, `max(1-lam/‖v‖,0)`)
     L21Norm.prox                      → `l21Prox`             (groups given by a labelling `grp`)
     HuberNorm._prox_sep / _prox_nonsep→ `huberSepProx1`, `huberSepProxC1`, `huberNonsepProx`
-    L1MinusL2Norm.prox                → `l1l2Prox`            (the four `where` branches, first arg-max)
+    L1MinusL2Norm.prox                → `l1l2Prox`, complex `l1l2ProxC` (the four `where` branches, first arg-max)
     NuclearNorm.prox (on svdS)        → `nuclearSvProx`
   scico/functional/_indicator.py
     NonNegativeIndicator.prox         → `nonnegProx`
@@ -281,6 +281,12 @@ def l1l2Prox (beta : α) (v : Vec α n) (lam : α) : Vec α n :=
       | none => fun _ => 0
       | some k => fun i => if i = k then (va k + (beta - 1) * lam) * sign (v k) else 0
   else fun _ => 0
+
+/-- `L1MinusL2Norm.prox` for complex `v`: the code works with `va = |v|` and `vs = exp(1j*angle v)` only, so the
+    result is the real map applied to the moduli, multiplied entry-wise by the phases -/
+def l1l2ProxC (beta : α) (v : Vec (α × α) n) (lam : α) : Vec (α × α) n :=
+  let r := l1l2Prox beta (fun i => cabs (v i)) lam
+  fun i => cscale (r i) (cphase (v i))
 
 end Vector
 
